@@ -224,7 +224,8 @@ OnOutTagged(m, ev, f) ==
 
 \* ------------------------------------------------------------------ C16: heartbeats and stream requests
 \* "common_rev", "common_sr_first": the messages of common declared in another order (a dialect is a set of messages)
-FullDialects == {"common", "common_rev", "common_sr_first"}
+FullDialects == {"common", "common_rev", "common_sr_first", "common_v0"}
+DialectVersion(m) == IF m.conf.dialect = "common_v0" THEN 0 ELSE 3
 HbWanted(m) == ~m.conf.hb_disable /\ m.conf.dialect \in FullDialects \cup {"no66"}
 SrWanted(m) == m.conf.sr_enable /\ m.conf.dialect \in FullDialects
 
@@ -237,7 +238,7 @@ OnOutHeartbeat(m, ev, f) ==
       m1 == Check(m, "C16.no_heartbeat_when_disabled_or_not_in_dialect", HbWanted(m), ev)
       m2 == Check(m1, "C16.heartbeat_fields",
                   d.ok /\ FieldVal(v, 1) = wantType /\ FieldVal(v, 2) = m.conf.hb_autopilot /\ FieldVal(v, 3) = 0
-                       /\ FieldVal(v, 4) = 0 /\ FieldVal(v, 5) = 4 /\ FieldVal(v, 6) = 3, ev)
+                       /\ FieldVal(v, 4) = 0 /\ FieldVal(v, 5) = 4 /\ FieldVal(v, 6) = DialectVersion(m), ev)
       m3 == AfterOrig(ApplyClauses(m2, OrigClauses(m2, ev, f, HbDef), ev), ev, f)
   IN [m3 EXCEPT !.hb = Put(@, ev.ep, Append(Get(@, ev.ep, <<>>), ev.t))]
 
